@@ -419,6 +419,10 @@ class Verifier(Calls):
         ax.append(z3.ForAll([km], (z3.Length(so.dict_order(km)) == 0) == (km == so.EMPTY_KW)))
         ax.extend(cl.deliver_axioms())
         ax.extend(cl.concat_axioms())
+        # an abstract (shape) object is never one of the builtin containers
+        ro = z3.Int("bro")
+        ax.append(z3.ForAll([ro], z3.Implies(shape_kind(ro) > 0, z3.And([so.typeof(ro) != self.cids.cid(k) for k in ("list", "set", "frozenset", "dict")])),
+                            patterns=[shape_kind(ro)]))
         ea = z3.Const("bea", SeqV)
         es = z3.Const("bes", so.S)
         # "".encode(...) == b"" and b"".decode(...) == "" (a literal in a trigger does not match reliably: guard instead)
